@@ -104,6 +104,9 @@ func (c *ColArr[T]) DecodeColumn(r *Reader, rows int) error {
 	if err := c.Offsets.DecodeColumn(r, rows); err != nil {
 		return errors.Wrap(err, "read offsets")
 	}
+	if err := checkOffsets(c.Offsets); err != nil {
+		return errors.Wrap(err, "offsets")
+	}
 	var size int
 	if l := len(c.Offsets); l > 0 {
 		// Pick last offset as total size of "elements" column.
@@ -114,6 +117,19 @@ func (c *ColArr[T]) DecodeColumn(r *Reader, rows int) error {
 	}
 	if err := c.Data.DecodeColumn(r, size); err != nil {
 		return errors.Wrap(err, "decode data")
+	}
+	return nil
+}
+
+// checkOffsets ensures that cumulative offsets never decrease, so that every
+// row [offsets[i-1], offsets[i]) is a valid range of the elements column.
+func checkOffsets(offsets []uint64) error {
+	var prev uint64
+	for i, off := range offsets {
+		if off < prev {
+			return errors.Errorf("[%d]: offset %d is less than previous offset %d", i, off, prev)
+		}
+		prev = off
 	}
 	return nil
 }
